@@ -9,6 +9,7 @@ use std::sync::atomic::{AtomicBool, Ordering};
 use std::sync::{Arc, RwLock};
 
 pub use crate::request::{new_request, RequestCreationError};
+pub use crate::util::QueueSnapshot;
 pub use crate::util::{
     EqualReader, FusedReader, MessagesQueue, SequentialReader, SequentialReaderBuilder,
     SequentialWriter, SequentialWriterBuilder, TaskPool,
